@@ -258,9 +258,11 @@ func (bd *DbBase) DecodeKey(ctx context.Context, key []byte) ([]byte, error) {
 	if err != nil {
 		return []byte{}, err
 	}
-	key, err = bd.FromSessionKey(key)
-	if err != nil {
-		return []byte{}, err
+	if oldKey[0] > datatype_sessioned_threshold {
+		key, err = bd.FromSessionKey(key)
+		if err != nil {
+			return []byte{}, err
+		}
 	}
 	logg.DebugCtxf(ctx, "decoded key", "key", key, "fromkey", oldKey)
 	return key, nil
